@@ -62,6 +62,34 @@ def edits(rng, text):
             line = line[:21] + ch + line[22:]
             wat.insert(p, line)
     out.append(("ignorable residues inserted (incl. ATOM-tagged, at chain starts)", "\n".join(wat) + "\n"))
+    # ignorable residues carrying chain identifiers of their own (W, blank), written between two residues of one protein chain
+    wat2 = list(lines)
+    starts = [i for i in atom_idx if lines[i][12:16].strip() == "N" and lines[i][:6] == "ATOM  " and i > atom_idx[0]]
+    for k, p in enumerate(sorted(rng.sample(starts, min(5, len(starts))), reverse=True)):
+        for tag, ch in (("HETATM", "W"), ("ATOM  ", " "), ("HETATM", "Z")):
+            line = w(tag, rng.choice(["HOH", "SO4"]), 3 * k + len(ch.strip()) + (tag == "ATOM  "))
+            wat2.insert(p, line[:21] + ch + line[22:])
+    out.append(("ignorable residues with chain identifiers of their own between the residues of a chain", "\n".join(wat2) + "\n"))
+    # connectivity annotations (SSBOND / LINK / CISPEP) naming residues of the structure: bonds come from the coordinates only
+    cys = [l for l in lines if structures.is_atom(l) and l[17:20] == "CYS" and l[12:16].strip() == "SG"]
+    ann = list(lines)
+    far = None
+    for a_ in cys:
+        for b_ in cys:
+            pa, pb = [float(v) for v in structures.get_xyz(a_)], [float(v) for v in structures.get_xyz(b_)]
+            if sum((x - y) ** 2 for x, y in zip(pa, pb)) > 36.0:
+                far = (a_, b_)
+                break
+        if far:
+            break
+    any2 = [l for l in lines if structures.is_atom(l) and l[12:16].strip() == "CA"][:2]
+    recs = []
+    if far:
+        recs.append("SSBOND   1 CYS %s %4s%s   CYS %s %4s%s" % (far[0][21], far[0][22:26], far[0][26], far[1][21], far[1][22:26], far[1][26]))
+    if len(any2) == 2:
+        recs.append("LINK         CA  %s %s%4s                 CA  %s %s%4s" % (any2[0][17:20], any2[0][21], any2[0][22:26], any2[1][17:20], any2[1][21], any2[1][22:26]))
+        recs.append("CISPEP   1 %s %s %4s   %s %s %4s          0         0.00" % (any2[0][17:20], any2[0][21], any2[0][22:26], any2[1][17:20], any2[1][21], any2[1][22:26]))
+    out.append(("SSBOND / LINK / CISPEP records naming residues of the structure (the named cysteines are 6 A or more apart)", "\n".join(recs + ann) + "\n"))
     # column noise: serial (decimal + hybrid-36, also duplicates), occupancy, B-factor, element, charge
     noise = list(lines)
     k = 0
